@@ -20,6 +20,9 @@ OBLIGATIONS.append(dict(id='C10.lexer.nopanic.next_lexem', engine='V', verus_fn=
     desc='real Lexer::next_lexem (extracted verbatim), every argument vector and every lexer state reachable from Lexer::new: no panic (unwrap, usize / isize arithmetic on the cursors), the loop and the `asc` recursion terminate (decreases: parts left, characters left in the part), and every token returned consumed input - so the token loop of Parser::parse terminates'))
 OBLIGATIONS.append(dict(id='C10.lexer.nopanic.new', engine='V', verus_fn='Lexer::new', verus_file='lexer', label=None, complete=True, bound=None, units=[], harness='verus:Lexer::new', tier='quick',
     desc='real Lexer::new establishes the cursor invariant next_lexem requires (for every argument vector)'))
+OBLIGATIONS.append(dict(id='C10.format.parse', engine='V', verus_fn='Parser::parse_output_format', label='C10.format.parse', complete=True, bound=None, units=[], harness='verus:Parser::parse_output_format', tier='quick',
+    desc='real parse_output_format, every token vector: without INTO the format is the default (tabs) and nothing is consumed; `into W` is the format the word W denotes or an error (an unknown format name is rejected, never replaced by a default); INTO followed by anything else is an error'))
+OBLIGATIONS.append(ob('C10.date.calendar', 'verif_frag::dateprecision::c10_date_calendar', 'calendar part of parse_datetime (everything after the time-of-day range check, verbatim, on a shim calendar): for every year 0..9999 and every 1-2 digit month / day a date that is not in the calendar (month 13, 30 February, day 0) yields an error and never a panic; every calendar date is accepted', units=['dateprecision']))
 CANARIES = []
 ASSUMPTIONS = ['termination is proved for the 19 parser methods under contract only', 'is_root_option_keyword is trusted (external_body: string prefix tests, total)']
 NOT_COVERED = ['parse_roots and Parser::parse (not under contract; the token loop of Parser::parse terminates because every token consumes input - proved for the lexer, the loop itself is not in the verified text)', 'looks_like_date / looks_like_expression inside the lexer (regex, closures: external stubs)', 'termination of parse_roots and of the search itself', 'evaluator-side literal errors other than booleans (regex, dates)', 'process-level behaviour']
